@@ -75,6 +75,11 @@ struct veru_rng_s { size_t xb, xe;                    /* mirror of the current (
 ldb_version_t g_va, g_vb;                /* windows: every version before / after the tracked one on the ring       */
 void **g_oitems; size_t g_ocap;          /* a list of g_ocap entries, all &g_fo: backing store of every untracked list */
 rb_set64_t g_live; uint64_t g_q; int g_q_in; size_t g_puts;
+/* ver2.deletions / ver2.stop: */
+ldb_compaction_t g_cmpn; ldb_edit_t g_edit;
+size_t g_n0, g_n1;                       /* lengths of inputs[0] (tracked position g_k: g_fk) and inputs[1] (tracked position g_j: g_fj) */
+size_t g_gi0; int g_seen0; int64_t g_ob0; uint64_t g_sum;   /* should_stop_before: state before the call, bytes of the grandparents passed */
+size_t g_del_n, g_delk, g_delj;          /* remove_file calls: all / naming (level, number of g_fk) / naming (level+1, number of g_fj) */
 /* ver.boundary.*: */
 ldb_filemeta_t g_fc, g_fcj;              /* compaction-set list: its first-maximum file, an arbitrary second file   */
 const ldb_vector_t *g_cfiles; size_t g_cn, g_ck, g_cj;   /* that list, its length, positions of g_fc / g_fcj           */
@@ -126,8 +131,10 @@ int m_icmp(const ldb_comparator_t *c, const ldb_slice_t *x, const ldb_slice_t *y
   __CPROVER_assert(x->size >= 8 && y->size >= 8, "internal key comparator is handed internal keys (user key + 8-byte trailer)");
   g_icalls++; g_last_x = x->data; g_last_y = y->data; g_last_xsize = x->size;
   g_last_res = sign3(LT_(x->size - 8, x->alloc, y->size - 8, y->alloc), LT_(y->size - 8, y->alloc, x->size - 8, x->alloc));
+  icmp_hook(x, y, g_last_res);
   return g_last_res;
 }
+static void icmp_hook(const ldb_slice_t *x, const ldb_slice_t *y, int res);   /* unit-specific bookkeeping on every internal-key comparison */
 static void push_other_hook(void);
 static void push_hook(const void *x);   /* unit-specific bookkeeping on every append */   /* unit-specific obligation on an untracked file that is appended */
 /* dbformat.c is not linked: internal keys built by the code under test are built in the rank representation */
